@@ -234,3 +234,30 @@ Definition fn_eq (a b : FinParams) : res bool :=
 Definition fin_eq (a b : FinishedPdu) : res bool :=
   do e <- fn_eq (fin_params a) (fin_params b);
   if negb e then Ok false else Ok (fdir_eqb (fin_fdir a) (fin_fdir b)).
+
+(* ---- alternate construction paths ---- *)
+(* FinishedParams.success_params() *)
+Definition fn_success : FinParams :=
+  {| fn_cc := CC_NO_ERROR; fn_dc := DC_DATA_COMPLETE; fn_fs := FS_FILE_RETAINED;
+     fn_resps := []; fn_fault := None |}.
+(* FinishedPdu.success_pdu(pdu_conf) *)
+Definition fin_success_pdu (conf : PduConfig) : res (FinishedPdu * PduConfig * FinParams) :=
+  fin_new conf fn_success.
+
+(* FinishedPdu.__init__ for a parameter object whose file_store_responses attribute is None
+   (the annotation says List, the constructor and the setter accept None): the responses setter
+   is skipped, the length is calculated directly (repair: before it, nothing calculated the
+   length when the fault location was None as well, so the two CRC octets were not counted).
+   The record carries [] for the attribute; that the caller's attribute stays None is tracked by
+   the history interpreter (Run/DirHist.v). *)
+Definition fin_new_none (conf : PduConfig) (params : FinParams)
+  : res (FinishedPdu * PduConfig * FinParams) :=
+  let conf' := conf_set_dir conf DIR_TOWARDS_SENDER in
+  do f <- fdir_new conf' DT_FINISHED 1;
+  let p := {| fin_fdir := f; fin_params := fn_with_resps params [] |} in
+  do p <- match fn_fault params with
+          | Some t => fin_set_fault p (Some t)
+          | None => Ok p
+          end;
+  do p <- fin_calc_len p;
+  Ok (p, conf, fin_params p).
